@@ -150,6 +150,7 @@ class Network:
         self.endpoints = {}      # addr -> (node, deliver_fn(data: TaggedBytes, src_addr))
         self.ordinals = {}
         self.taps = []           # fn(wire_id, t, src, dst, data, fate)
+        self.rx_taps = []        # fn(t, src, dst, nbytes, origin) at delivery to an endpoint
         self.nwire = 0
         self.delivered = 0
         self.names = {}          # addr -> short endpoint name used in link keys
@@ -192,6 +193,8 @@ class Network:
         if ep is None:
             self.k.rec("rx_noendpoint", self.name(dst), len(data))
             return
+        for tap in self.rx_taps:
+            tap(self.k.now, src, dst, len(data), origin)
         tb = TaggedBytes(mutate(data, mut))
         tb.origin = origin if mut is None else "net-mutated"
         tb.wire_id = wid
